@@ -2067,9 +2067,118 @@ def correspond_method_impls(ctx, corr):
                                            what="method definition `%s`: %s" % (text, msg)))
 
 
+# explicit instantiations: extracted inst_stmt (Parse/TemplateInst.v) vs the real _parse_template_instantiation
+
+def real_template_inst(strs, extern):
+    toks = [impl.mk_tok(decl.tok_type(s), s) for s in strs]
+    p = impl.parser_over(toks)
+    got = []
+
+    class Rec(impl.NullVisitor):
+        def on_template_inst(self, state, inst):
+            got.append(inst)
+    p.visitor = Rec()
+    try:
+        p._parse_template_instantiation(None, extern)
+    except (impl.CxxParseError, EOFError):
+        return ('err',)
+    except (AssertionError, IndexError, KeyError, AttributeError, TypeError, ValueError, RecursionError):
+        return ('other',)
+    if len(got) != 1 or got[0].extern is not extern:
+        return ('other',)
+    q = got[0].typename
+    segs = list(q.segments)
+    root = bool(segs) and isinstance(segs[0], T.NameSpecifier) and segs[0].name == '' and segs[0].specialization is None
+    if root:
+        segs = segs[1:]
+    names = []
+    for sg in segs[:-1]:
+        if not isinstance(sg, T.NameSpecifier) or sg.specialization is not None:
+            return ('other',)
+        names.append(sg.name)
+    last = segs[-1]
+    if not isinstance(last, T.NameSpecifier) or last.specialization is None or q.classkey or q.has_typename:
+        return ('other',)
+    names.append(last.name)
+    out = []
+    for a in last.specialization.args:
+        if isinstance(a.arg, T.Value):
+            out.append(('value', tuple(t.value for t in a.arg.tokens), a.param_pack))
+        else:
+            try:
+                out.append(('type', decl.from_real(a.arg), a.param_pack))
+            except decl.Unrepresentable:
+                return ('other',)
+    return ('ok', root, tuple(names), out, len(p.lex.tokbuf))
+
+
+def correspond_template_insts(ctx, corr):
+    rng = ctx.rng
+    cases = []
+    for _ in range(ctx.scale(600, 12000)):
+        names = [rng.choice(['ns', 'A', 'X', 'Vec', 'detail']) for _ in range(rng.choice([1, 1, 2, 3]))]
+        toks = [rng.choice(['class', 'struct'])] + (['::'] if rng.random() < 0.15 else [])
+        for i, n_ in enumerate(names):
+            if i:
+                toks.append('::')
+            toks.append(n_)
+        args, _exp = c02.gen_tspec(rng)
+        args = list(args)
+        if rng.random() < 0.8:
+            for junk in (['x', ';'], ['::', 'type'], ['>', '>']):
+                if args[-len(junk):] == junk:
+                    args = args[:len(args) - len(junk)] + (['>'] if junk[0] == '>' else [])
+        toks += ['<'] + args + [';'] + rng.choice([[], ['int', 'z', ';']])
+        cases.append((toks, rng.random() < 0.5))
+        if rng.random() < 0.3:
+            cases.append((c02.mutate(rng, toks) or [';'], rng.random() < 0.5))
+    lines, nms = [], []
+    for toks, ext in cases:
+        names = decl.Names()
+        lines.append([117] + decl.enc_tokens(toks, names))
+        nms.append(names)
+    for (toks, ext), o, names in zip(cases, run_driver(lines), nms):
+        corr.cases += 1
+        if o[0] == 0:
+            rest, root, nn = o[1], bool(o[2]), o[3]
+            nm_ = tuple(names.rev.get(x, '?') for x in o[4:4 + nn])
+            i = 4 + nn
+            cnt = o[i]
+            i += 1
+            out = []
+            for _ in range(cnt):
+                if o[i] == 1:
+                    t, j = decl.dec_type(o, i + 2, names)
+                    out.append(('type', t, bool(o[i + 1])))
+                    i = j
+                else:
+                    n = o[i + 2]
+                    vals = tuple(names.rev[o[i + 3 + 2 * j + 1]] if o[i + 3 + 2 * j + 1] else impl.TT[o[i + 3 + 2 * j]] for j in range(n))
+                    out.append(('value', vals, bool(o[i + 1])))
+                    i += 3 + 2 * n
+            m = ('ok', root, nm_, out, rest)
+        else:
+            m = ('err', o[1])
+        r = real_template_inst(toks, ext)
+        k = "tinst:" + (m[0] if m[0] == 'ok' else 'err%d' % m[1]) + "/" + r[0]
+        corr.dist[k] = corr.dist.get(k, 0) + 1
+        msg = None
+        if r[0] != 'other' and not (m[0] == 'err' and m[1] == 4):
+            if m[0] == 'err' and m[1] == 9:
+                msg = "model ran out of fuel"
+            elif (m[0] == 'ok') != (r[0] == 'ok'):
+                msg = "model %s, implementation %s" % (m[:3], r[:3])
+            elif m[0] == 'ok' and m != r:
+                msg = "model %s, implementation %s" % (m, r)
+        if msg:
+            corr.disagreements.append(dict(case=dict(kind='corr-tinst', tokens=toks, extern=ext), model=str(m)[:400], impl=str(r)[:400],
+                                           what="explicit instantiation `%stemplate %s`: %s" % ('extern ' if ext else '', ' '.join(toks), msg)))
+
+
 def correspond(ctx):
     corr = Corr()
     rng = ctx.rng
+    correspond_template_insts(ctx, corr)
     correspond_method_impls(ctx, corr)
     correspond_op_fns(ctx, corr)
     correspond_typedef_stmts(ctx, corr)
